@@ -6,6 +6,10 @@ ops: dec           decode, then report size observations, re-encodings, print te
      overfill      decode, push every limited vector past its limit, report
      clear         decode, clear arrays / reset optionals, report
      fresh         no decode: report on the default-constructed object
+     reuse         hex is <first>/<second>: decode <first> into the object (result ignored), then decode <second> into
+                   the same object and report as for dec
+     build         no decode: the hex is a stream of 64-bit little-endian words assigned to the public members in
+                   declaration order (see value_words); report
 stdout, per case:  BEGIN <id>   then   R <id> k=v ...
 """
 import os
@@ -84,6 +88,19 @@ static std::vector<uint8_t> from_hex(const char* s)
 
 template <class T> struct mutate { static void overfill(T&) { } static void clear(T&) { } };
 
+// Building a value through the public members, from a flat word stream (op "build"): independent of the decoder.
+struct rd { const uint64_t* p; const uint64_t* e; uint64_t w() { return p < e ? *p++ : 0; } };
+template <class T> struct bld;
+#define PUT_INT(T) static inline void put(T& x, rd& r) { x = (T)r.w(); }
+PUT_INT(uint8_t) PUT_INT(uint16_t) PUT_INT(uint32_t) PUT_INT(uint64_t)
+PUT_INT(int8_t) PUT_INT(int16_t) PUT_INT(int32_t) PUT_INT(int64_t)
+static inline void put(float& x, rd& r) { uint32_t b = (uint32_t)r.w(); memcpy(&x, &b, 4); }
+static inline void put(double& x, rd& r) { uint64_t b = r.w(); memcpy(&x, &b, 8); }
+template <class T> static inline void put_enum(T& x, rd& r) { x = static_cast<T>(r.w()); }
+template <class T> static inline void put_comp(T& x, rd& r) { bld<T>::go(x, r); }
+template <class T> static inline T& engage(prophy::optional<T>& o) { o = T(); return *o; }
+template <class T> static inline void disengage(prophy::optional<T>& o) { o = prophy::optional<T>(); }
+
 // Type-erased access to one generated message type: keeps the per-type template code tiny.
 struct vt_t
 {
@@ -97,6 +114,7 @@ struct vt_t
     void (*print)(const void*, std::string&);
     void (*overfill)(void*);
     void (*clear)(void*);
+    void (*build)(void*, const uint64_t*, size_t);
 };
 
 template <class T>
@@ -114,6 +132,7 @@ struct th
     static void print(const void* p, std::string& out) { out = static_cast<const T*>(p)->print(); }
     static void overfill(void* p) { mutate<T>::overfill(*static_cast<T*>(p)); }
     static void clear(void* p) { mutate<T>::clear(*static_cast<T*>(p)); }
+    static void build(void* p, const uint64_t* w, size_t n) { rd r = { w, w + n }; bld<T>::go(*static_cast<T*>(p), r); }
     static vt_t make()
     {
         vt_t v;
@@ -122,7 +141,7 @@ struct th
         v.enc_ptr[0] = &encp<prophy::native>; v.enc_ptr[1] = &encp<prophy::little>; v.enc_ptr[2] = &encp<prophy::big>;
         v.enc_vec[0] = &encv<prophy::native>; v.enc_vec[1] = &encv<prophy::little>; v.enc_vec[2] = &encv<prophy::big>;
         v.gbs = &gbs; v.ebs = int(T::encoded_byte_size); v.print = &print;
-        v.overfill = &overfill; v.clear = &clear;
+        v.overfill = &overfill; v.clear = &clear; v.build = &build;
         return v;
     }
 };
@@ -160,7 +179,8 @@ static void report(const vt_t& vt, int e, void* x)
     printf(" print="); put_hex((const uint8_t*)text.data(), text.size());
 }
 
-static void run(const vt_t& vt, const char* id, const char* endian, const char* op, const std::vector<uint8_t>& in)
+static void run(const vt_t& vt, const char* id, const char* endian, const char* op, const std::vector<uint8_t>& in,
+                const std::vector<uint8_t>* prime)
 {
     int e = !strcmp(endian, "little") ? 1 : !strcmp(endian, "big") ? 2 : 0;
     // exact-size heap copy of the input: any read outside [data, data+size) is an ASan error
@@ -172,7 +192,28 @@ static void run(const vt_t& vt, const char* id, const char* endian, const char* 
     {
         g_alloc_total = 0; g_counting = true;
         // "fresh": the default-constructed object, no decode (values a decoder cannot deliver still get their sizes checked)
-        bool ok = !strcmp(op, "fresh") ? true : vt.decode[e](x, buf, in.size());
+        bool ok;
+        if (!strcmp(op, "fresh")) ok = true;
+        else if (!strcmp(op, "build"))
+        {
+            std::vector<uint64_t> words(in.size() / 8 + 1);
+            if (in.size()) memcpy(&words[0], buf, in.size() / 8 * 8);
+            vt.build(x, &words[0], in.size() / 8);
+            ok = true;
+        }
+        else
+        {
+            if (prime)
+            {
+                // "reuse": the object first receives another input (result ignored), then the one under judgement
+                uint8_t* pb = (uint8_t*)malloc(prime->size() ? prime->size() : 1);
+                if (prime->size()) memcpy(pb, prime->data(), prime->size());
+                try { vt.decode[e](x, pb, prime->size()); } catch (...) { g_alloc_total = 0; }
+                free(pb);
+                g_alloc_total = 0;
+            }
+            ok = vt.decode[e](x, buf, in.size());
+        }
         g_counting = false;
         printf(" ok=%d alloc=%zu", int(ok), g_alloc_total);
         if (ok)
@@ -208,7 +249,14 @@ int main()
         fprintf(stderr, "BEGIN %s\n", id); fflush(stderr);
         std::map<std::string, vt_t>::iterator it = table.find(type);
         if (it == table.end()) { printf("R %s exc=NO-SUCH-TYPE\n", id); fflush(stdout); continue; }
-        run(it->second, id, endian, op, from_hex(hex));
+        char* slash = strchr(hex, '/');
+        if (slash)
+        {
+            *slash = 0;
+            std::vector<uint8_t> first = from_hex(hex);
+            run(it->second, id, endian, op, from_hex(slash + 1), &first);
+        }
+        else run(it->second, id, endian, op, from_hex(hex), 0);
         fflush(stdout);
     }
     return 0;
@@ -237,6 +285,103 @@ def mutators(ref, name):
                 name, name, ' '.join(over), name, ' '.join(clear)))
 
 
+def _putter(ref, t):
+    r = ref.resolve(t)
+    if isinstance(r, str):
+        return 'put'
+    if isinstance(r, S.Enum):
+        return 'put_enum'
+    return 'put_comp'
+
+
+def builders(ref):
+    """bld<T>::go for every struct and union of the schema, dependencies first."""
+    out = []
+    done = set()
+
+    def emit(name):
+        d = ref.resolve(name)
+        if isinstance(d, str) or isinstance(d, S.Enum) or d.name in done:
+            return
+        done.add(d.name)
+        body = []
+        if isinstance(d, S.Union):
+            for a in d.arms:
+                emit(a.type)
+            body.append('switch (r.w()) {')
+            for i, a in enumerate(d.arms):
+                body.append('case %d: x.discriminator = prophy::generated::%s::discriminator_%s; %s(x.%s, r); break;' % (
+                    i, d.name, a.name, _putter(ref, a.type), a.name))
+            body.append('}')
+        else:
+            for f in ref.fields(d.name):
+                if f.kind in ('counter', 'sizer'):
+                    continue
+                if f.kind != 'bytes':
+                    emit(f.type)
+                P = 'put' if f.kind == 'bytes' else _putter(ref, f.type)
+                if f.kind in ('scalar', 'enum', 'comp'):
+                    body.append('%s(x.%s, r);' % (P, f.name))
+                elif f.kind == 'opt':
+                    body.append('if (r.w()) %s(engage(x.%s), r); else disengage(x.%s);' % (P, f.name, f.name))
+                elif f.mode == 'fixed':
+                    body.append('{ uint64_t n = r.w(); for (uint64_t i = 0; i < n && i < %d; ++i) %s(x.%s[i], r); }' % (
+                        f.n, P, f.name))
+                else:
+                    body.append('{ uint64_t n = r.w(); x.%s.resize(n); for (uint64_t i = 0; i < n; ++i) %s(x.%s[i], r); }' % (
+                        f.name, P, f.name))
+        out.append('template <> struct bld<prophy::generated::%s> { static void go(prophy::generated::%s& x, rd& r) {\n  %s\n} };\n'
+                   % (d.name, d.name, '\n  '.join(body)))
+
+    for d in list(ref.defs.values()):
+        if isinstance(d, (S.Struct, S.Union)):
+            emit(d.name)
+    return ''.join(out)
+
+
+def value_words(ref, t, v, out=None):
+    """The word stream bld<T>::go consumes for value tree v (as bytes: 8 bytes little endian per word)."""
+    import struct as _st
+    top = out is None
+    out = [] if top else out
+    r = ref.resolve(t)
+    if isinstance(r, str):
+        if r == 'float':
+            out.append(_st.unpack('<I', _st.pack('<f', v))[0])
+        elif r == 'double':
+            out.append(_st.unpack('<Q', _st.pack('<d', v))[0])
+        else:
+            out.append(int(v) & 0xffffffffffffffff)
+    elif isinstance(r, S.Enum):
+        out.append(ref.enum_value(r, v) & 0xffffffffffffffff)
+    elif isinstance(r, S.Union):
+        armname, armval = v
+        i = [a.name for a in r.arms].index(armname)
+        out.append(i)
+        value_words(ref, r.arms[i].type, armval, out)
+    else:
+        for f in ref.fields(r.name):
+            if f.kind in ('counter', 'sizer'):
+                continue
+            val = v[f.name]
+            if f.kind in ('scalar', 'enum', 'comp'):
+                value_words(ref, f.type, val, out)
+            elif f.kind == 'opt':
+                out.append(0 if val is None else 1)
+                if val is not None:
+                    value_words(ref, f.type, val, out)
+            elif f.kind == 'bytes':
+                out.append(len(val))
+                out.extend(bytearray(val))
+            else:
+                out.append(len(val))
+                for e in val:
+                    value_words(ref, f.type, e, out)
+    if top:
+        return b''.join(_st.pack('<Q', w) for w in out)
+    return out
+
+
 CPP_SCALAR = {'u8': 'uint8_t', 'u16': 'uint16_t', 'u32': 'uint32_t', 'u64': 'uint64_t', 'i8': 'int8_t',
               'i16': 'int16_t', 'i32': 'int32_t', 'i64': 'int64_t', 'float': 'float', 'double': 'double'}
 
@@ -251,6 +396,7 @@ def driver_source(ref, tops):
     out = [DRIVER_PRELUDE]
     for t in tops:
         out.append(mutators(ref, t))
+    out.append(builders(ref))
     out.append('static void fill_table(std::map<std::string, vt_t>& t)\n{\n')
     for t in tops:
         out.append('    t["%s"] = th<prophy::generated::%s>::make();\n' % (t, t))
@@ -298,6 +444,12 @@ def parse_result(line):
     return res
 
 
+def _hex(x):
+    if isinstance(x, tuple):        # (first, second) of op reuse
+        return '%s/%s' % (x[0].hex() or '-', x[1].hex() or '-')
+    return x.hex() if x else '-'
+
+
 def run_driver(exe, cases, timeout=120):
     """cases: list of (id, type, endian, op, bytes).  Returns {id: result dict}; a result
     may be {'crash': report text, 'exit': code} when the process died on that case."""
@@ -306,7 +458,7 @@ def run_driver(exe, cases, timeout=120):
     env = dict(os.environ)
     env.update(ASAN_ENV)
     while pending:
-        text = ''.join('%s %s %s %s %s\n' % (c[0], c[1], c[2], c[3], c[4].hex() if c[4] else '-') for c in pending)
+        text = ''.join('%s %s %s %s %s\n' % (c[0], c[1], c[2], c[3], _hex(c[4])) for c in pending)
         try:
             p = subprocess.run([exe], input=text.encode(), stdout=subprocess.PIPE, stderr=subprocess.PIPE, env=env,
                                timeout=timeout)
